@@ -11,6 +11,7 @@ import (
 	ledger "github.com/formancehq/ledger/internal"
 	"github.com/formancehq/ledger/internal/api/bulking"
 	ledgercontroller "github.com/formancehq/ledger/internal/controller/ledger"
+	"github.com/formancehq/ledger/internal/machine"
 	"github.com/formancehq/ledger/internal/machine/script/compiler"
 	"github.com/formancehq/ledger/verifh/gen"
 )
@@ -37,6 +38,7 @@ func Replay(path string) error {
 			Postings []string                     `json:"postings"`
 			Force    bool                         `json:"force"`
 			Executor string                       `json:"executor"` // C25: "sql-store" | "in-memory-store"
+			Text     string                       `json:"text"` // C24 spelling leg, direct parse: the portion text
 			// C27 histories: the executions to run, in order, on one cached runtime
 			History []struct {
 				Vars      map[string]string            `json:"vars"`
@@ -106,6 +108,15 @@ func Replay(path string) error {
 		}
 		res, err := rt.Execute(context.Background(), mkStore(), core.Vars)
 		fmt.Printf("machine adapter: err=%v result=%+v\n", err, res)
+		return nil
+	}
+	if rp.Text != "" && rp.Program == "" {
+		p, err := machine.ParsePortionSpecific(rp.Text)
+		if err != nil {
+			fmt.Printf("ParsePortionSpecific(%q): error %v\n", rp.Text, err)
+		} else {
+			fmt.Printf("ParsePortionSpecific(%q) = %s\n", rp.Text, p.String())
+		}
 		return nil
 	}
 	text := rp.Program
